@@ -121,7 +121,7 @@ class Gen:
             if r.random() < 0.03:
                 vt = r.choice(["x", "", "1.0"])
             pay = self.set_payload(sub, valid=r.random() < 0.8)
-            if r.random() < 0.15 and pay.lstrip("-").isdigit():
+            if r.random() < 0.15 and pay.lstrip("-").isascii() and pay.lstrip("-").isdigit():
                 pay = int(pay)
             elif r.random() < 0.08:
                 pay = r.choice(["a;b", "1;2", "x\ny", "trail ", "", "é;"])
